@@ -3,7 +3,7 @@
 Case rule on SBC().get_clusters(stack) with default parameters: exactly two clusters whose index sets are the
 generator's two slabs (tracked through the permutation), each with dimensionality 2.  Enumerated cells
 (gen/slabs.c03_cells): ordered metal pairs with < 5 % mismatch x facet x layers x lateral size x pbc x noise x
-interface registry; presentation pool per (cell, VERIF_SEED mod 8, k)."""
+interface registry; presentation pool per (cell, VERIF_SEED mod 4, k)."""
 import numpy as np
 
 from checks import sbcfam
@@ -14,7 +14,7 @@ from harness import main as hmain
 ID = "C03"
 LEVEL = "exploration"
 RULE = ("enumerated cells: ordered pairs of distinct fcc metals on (100)/(111) and bcc metals on (100)/(110) with lattice "
-        "mismatch < 5 % (B strained in plane to A) x layers {3+3, 4+3, 3+5, 5+4} x lateral 4x4/5x5 x pbc TTT/TTF x noise "
+        "mismatch < 5 % (B strained in plane to A) x layers {3+3, 4+3, 3+5} x lateral 4x4/5x5 x pbc TTT/TTF x noise "
         "{0, 0.03} x registry {on-top, hollow}; interface at bonding distance (sum of covalent radii + 0.25 A); each cell in "
         "a presentation (rotation, translation, permutation, SBC seed) from its pool. Cells failing the independent bonding / "
         "overlap / interface precondition are discarded and counted. thorough = every cell, quick = VERIF_SEED-chosen subset "
@@ -33,7 +33,7 @@ def floors(tier):
 
 def gen_cases(tier, seed):
     universe = slabs.c03_cells()
-    sc = seed % 8
+    sc = seed % 4
     if tier == "thorough":
         chosen = universe
     else:
